@@ -141,6 +141,7 @@ type c10 struct {
 	rxoff   int64           // operators that receive nothing (connectivity outage, inbound)
 	txoff   int64           // operators whose messages reach nobody (outbound)
 	cut     map[[2]int]bool // single directed links that are down (mode 2)
+	rxDrop  []int64         // [op] -> kinds of messages that do not reach it (mode 2, directed schedules)
 	lat     [][]time.Duration
 	msgs    []*gmsg
 	tgen    map[tkey]int
@@ -454,7 +455,7 @@ func (c *c10) deliver(e *c10ev) {
 		}
 		return
 	}
-	if to < c.n && c.rxoff&(1<<uint(to)) != 0 {
+	if to < c.n && (c.rxoff&(1<<uint(to)) != 0 || (c.rxDrop != nil && c.rxDrop[to]&(1<<uint(g.kind)) != 0)) {
 		c.d.Fault("outage-message-lost")
 		return
 	}
@@ -727,6 +728,8 @@ func (c *c10) exec(s sim.Step) {
 		c.d.Logf("t=%v connectivity lost: inbound %b outbound %b", c.rel(), c.rxoff, c.txoff)
 	case "lone":
 		c.lonePrepared(int(s.Arg(0)) % n)
+	case "relead":
+		c.reLead(int(s.Arg(0)) % n)
 	case "tostart": // run up to and including the next duty start
 		for c.hp.Len() > 0 {
 			k := c.hp[0].kind
@@ -815,6 +818,120 @@ func (c *c10) lonePrepared(x int) {
 	c.cut = nil
 }
 
+// reLead (directed schedule, mode 2, committee of 4): the leader of round 1 leads again in round 5 and
+// must then propose ANOTHER value. Round 1: its proposal is seen by everybody, but nothing else gets
+// through. Round 2: the next leader's value is prepared by one operator only. Rounds 3 and 4 are lost
+// in a blackout. Round 5: connectivity is back (one link aside, so that the prepared round-change is in
+// the leader's quorum) and the round-1 leader proposes the value prepared in round 2, with justification.
+func (c *c10) reLead(x int) {
+	if c.mode < 2 {
+		return
+	}
+	inst := func(i int) *instance.Instance {
+		for _, role := range c10Roles[:5] {
+			if st := c.w.ops[i].runners[role].GetBaseRunner().State; st != nil && st.RunningInstance != nil && !st.RunningInstance.State.Decided {
+				return st.RunningInstance
+			}
+		}
+		return nil
+	}
+	all := int64(1)<<uint(c.n) - 1
+	proposalEverywhere := func(round specqbft.Round) bool {
+		for k := 0; k < 600 && c.hp.Len() > 0; k++ {
+			ok := 0
+			for i := 0; i < c.n; i++ {
+				if in := inst(i); in != nil && in.State.Round == round && in.State.ProposalAcceptedForCurrentRound != nil {
+					ok++
+				}
+			}
+			if ok == c.n {
+				return true
+			}
+			c.runOne()
+		}
+		return false
+	}
+	beforeNextTimer := func() {
+		var next time.Time
+		for _, e := range c.hp {
+			if e.kind == evTimeout && c.tgen[tkey{e.op, e.role}] == e.gen && (next.IsZero() || e.at.Before(next)) {
+				next = e.at
+			}
+		}
+		for !next.IsZero() && c.hp.Len() > 0 && c.hp[0].at.Before(next.Add(-time.Millisecond)) {
+			c.runOne()
+		}
+	}
+	untilRound := func(round specqbft.Round) {
+		for k := 0; k < 2000 && c.hp.Len() > 0; k++ {
+			low := specqbft.Round(1 << 20)
+			for i := 0; i < c.n; i++ {
+				if in := inst(i); in != nil && in.State.Round < low {
+					low = in.State.Round
+				}
+			}
+			if low >= round {
+				return
+			}
+			c.runOne()
+		}
+	}
+	defer func() { c.rxoff, c.txoff, c.cut, c.rxDrop = 0, 0, nil, nil }()
+	const votes = 1<<1 | 1<<2 | 1<<4 // prepares, commits, decided messages
+	c.rxDrop = make([]int64, c.n)
+	for i := range c.rxDrop {
+		c.rxDrop[i] = votes // round 1: the proposal is seen by everybody, no vote arrives anywhere
+	}
+	if !proposalEverywhere(1) {
+		return
+	}
+	beforeNextTimer()
+	c.rxDrop[x] = 0 // round 2: only x collects the prepares
+	if !proposalEverywhere(2) {
+		return
+	}
+	xi := inst(x)
+	if xi == nil {
+		return
+	}
+	for k := 0; k < 600 && c.hp.Len() > 0 && xi.State.LastPreparedRound < 2 && xi.State.Round == 2; k++ {
+		c.runOne()
+	}
+	if xi.State.LastPreparedRound < 2 {
+		return
+	}
+	c.rxDrop = nil
+	c.rxoff, c.txoff = 0, all // rounds 3 and 4 are lost
+	untilRound(4)
+	beforeNextTimer()
+	lead := c.leaderIdx(xi.State.Height, 5)
+	// the leader's quorum must be completed by x's (prepared) round-change - the leader takes the value to
+	// propose from the completing message: exactly one unprepared operator with a faster link than x
+	// reaches the leader, the links of the others are down
+	c.cut = map[[2]int]bool{}
+	kept := -1
+	for y := 0; y < c.n; y++ {
+		if y == x || y == lead {
+			continue
+		}
+		if kept < 0 && c.lat[y][lead] < c.lat[x][lead] {
+			kept = y
+		} else {
+			c.cut[[2]int{y, lead}] = true
+		}
+	}
+	if kept < 0 {
+		c.d.Probe("re-lead-schedule-link-order-unsuitable")
+	}
+	c.txoff = 0
+	c.d.Probe("re-lead-schedule-completed")
+	c.d.Logf("t=%v relead: op=%d prepared in round 2, rounds 3-4 lost, round 5 led by op=%d", c.rel(), x+1, lead+1)
+	until := time.Now().Add(2500 * time.Millisecond)
+	for c.hp.Len() > 0 && !c.hp[0].at.After(until) {
+		c.runOne()
+	}
+}
+
 func (c *c10) gen(r *sim.Rand) *sim.Step {
 	cfg := c.d.Cfg
 	if len(c.w.plan) > 0 {
@@ -855,6 +972,9 @@ func (c *c10) gen(r *sim.Rand) *sim.Step {
 		}
 		if c.mode > 1 && cfg.Get("lone_first", 0) == 1 {
 			c.w.plan = append(c.w.plan, sim.Step{Op: "tostart"}, sim.Step{Op: "lone", A: []int64{int64(r.Intn(c.n))}})
+		}
+		if c.mode > 1 && cfg.Get("lone_first", 0) == 2 {
+			c.w.plan = append(c.w.plan, sim.Step{Op: "tostart"}, sim.Step{Op: "relead", A: []int64{int64(r.Intn(c.n))}})
 		}
 		return c.gen(r)
 	}
@@ -1024,6 +1144,8 @@ func init() {
 			}
 			if mode == 2 && r.Chance(0.35) {
 				c["lone_first"] = 1
+			} else if mode == 2 && n == 4 && r.Chance(0.3) {
+				c["lone_first"], c["diverge"] = 2, 1 // the round-1 leader leads again in round 5, with another value
 			}
 			if c["fork"] == 2 { // first duty in the last slot of the epoch before activation
 				c["slot_base"] = 30
